@@ -47,6 +47,14 @@ Proof.
   - destruct R as [_ _ _ _ _ _ _ _ _ _ _ _ Rs]. congruence.
 Qed.
 
+(* the loop can only return when at least c other nodes exist *)
+Lemma add_needs_others : forall cf w, Base cf w -> aw_stuck w = false -> aw_stuck (add_step cf w) = false ->
+  ac_deg cf <= length (st_nodes (aw_st w)).
+Proof.
+  intros cf w HB Hs Hs'. destruct (add_degree cf w HB Hs Hs') as [E1 [E2 [_ [E4 _]]]]. cbv zeta in *.
+  rewrite <- E1. apply NoDup_incl_length; [exact E2 | exact E4].
+Qed.
+
 Lemma delete_removes : forall cf w n, Base cf w -> In n (st_nodes (aw_st w)) ->
   let s := aw_st w in let s' := aw_st (delete_step cf w n) in
   ~ In n (st_nodes s') /\ (forall e, In e (st_edges s') -> touches n e = false)
